@@ -133,8 +133,17 @@ def _guid(s):
     return uuid.UUID(s).bytes_le
 
 
-def _foreign_guid(i):
+def _foreign_guid(i, pad='foreign'):
     # GUIDs that are neither the metadata region nor the size item
+    if pad == 'zero':
+        return bytes(16)                    # unused slot
+    if pad == 'ones':
+        return b'\xff' * 16
+    if pad == 'near':
+        # differs from the wanted GUIDs in one byte only
+        g = bytearray(_guid(VHDX_VDS if i % 2 else VHDX_METAREGION))
+        g[i % 16] ^= 0x01
+        return bytes(g)
     return uuid.UUID(int=(0x1000 + i) << 64 | 0xabcdef).bytes_le
 
 
@@ -142,7 +151,7 @@ def build_vhdx(size=10 * MI, meta_offset=256 * KI, region_before=0,
                region_after=1, region_count=None, meta_before=1, meta_after=2,
                meta_count=None, item_offset=64 * KI, item_length=8, tail=0,
                fill=0, regi_sig=b'regi', meta_sig=b'metadata',
-               ident=b'vhdxfile'):
+               ident=b'vhdxfile', pad='foreign'):
     """A VHDX whose header area, region table and metadata region follow the
     MS-VHDX layout.  ``fill`` != 0 fills every byte the format leaves free
     with filler (0 = zeros, as qemu-img writes them)."""
@@ -165,11 +174,12 @@ def build_vhdx(size=10 * MI, meta_offset=256 * KI, region_before=0,
     rt = 192 * KI
     entries = []
     for i in range(region_before):
-        entries.append(_guid(VHDX_BAT) if i == 0 else _foreign_guid(i))
+        entries.append(_guid(VHDX_BAT) if (i == 0 and pad == 'foreign')
+                       else _foreign_guid(i, pad))
     entries.append(_guid(VHDX_METAREGION))
     for i in range(region_after):
         entries.append(_guid(VHDX_BAT) if (i == 0 and not region_before)
-                       else _foreign_guid(100 + i))
+                       else _foreign_guid(100 + i, pad))
     count = n_region if region_count is None else region_count
     buf[rt:rt + 16] = struct.pack('<4sIII', regi_sig, 0x12345678,
                                   count & 0xffffffff, 0)
@@ -192,11 +202,12 @@ def build_vhdx(size=10 * MI, meta_offset=256 * KI, region_before=0,
                                   b'\0' * 20)
     mentries = []
     for i in range(meta_before):
-        mentries.append(_guid(_FOREIGN_META[i % 4]) if i < 4
-                        else _foreign_guid(200 + i))
+        mentries.append(_guid(_FOREIGN_META[i % 4])
+                        if (i < 4 and pad == 'foreign')
+                        else _foreign_guid(200 + i, pad))
     mentries.append(_guid(VHDX_VDS))
     for i in range(meta_after):
-        mentries.append(_foreign_guid(300 + i))
+        mentries.append(_foreign_guid(300 + i, pad))
     for i, g in enumerate(mentries):
         off = mt + 32 + 32 * i
         if g == _guid(VHDX_VDS):
@@ -222,7 +233,7 @@ def build_vhdx(size=10 * MI, meta_offset=256 * KI, region_before=0,
                     region_count=region_count, meta_before=meta_before,
                     meta_after=meta_after, meta_count=meta_count,
                     item_offset=item_offset, item_length=item_length,
-                    tail=tail, fill=fill,
+                    tail=tail, fill=fill, pad=pad,
                     regi_sig=regi_sig.decode('latin-1'),
                     meta_sig=meta_sig.decode('latin-1'),
                     ident=ident.decode('latin-1')),
